@@ -174,7 +174,7 @@ func VerifC25Streamer() {
 		verifC25Drive(3, 2, 2, false)
 		return
 	}
-	verifC25Drive(2, 2, 2, false)
+	verifC25Drive(2, 2, 1, false)
 }
 
 // VerifC25SingleCommit: entries that commit at most once (single statements, explicit
